@@ -1,5 +1,6 @@
 import Ruint.Lemmas.Codec.Rlp
 import Ruint.Lemmas.Codec.RlpParity
+import Ruint.Lemmas.Codec.RlpBits
 import Ruint.Lemmas.Codec.Scale
 import Ruint.Lemmas.Codec.Fixed
 import Ruint.Lemmas.Codec.Der
@@ -91,6 +92,10 @@ theorem rlp_parity_rejects_lists (bits : ℕ) (b : ℕ) (rest : List ℕ) (hb : 
     Rlp.decParity bits (b :: rest) = .error .rlpExpectedToBeData := by
   unfold Rlp.decParity
   rw [if_pos (by simpa using hb)]
+
+/-- `Bits` through parity rlp: accepted ⇒ a payload of exactly `BYTES` bytes denoting a value in range. -/
+theorem rlp_bits_sound (bits : ℕ) (bs : List ℕ) (v : ℕ) (h : Rlp.decParityBits bits bs = .ok v) :
+    v < 2 ^ bits ∧ ∃ d, d.length = nbytes bits ∧ beVal d = v := Rlp.decParityBits_sound bits bs v h
 
 /-! ## DER (canonical) -/
 
